@@ -6,7 +6,7 @@ set -u
 WT="$1"; M="$(realpath "$2")"; DEMO="$3"
 LOG="$M/confirm.log"; : > "$LOG"
 cd "$WT" || exit 2
-export CARGO_NET_OFFLINE=true RUST_BACKTRACE=0
+export CARGO_NET_OFFLINE=true RUST_BACKTRACE=0 CARGO_PROFILE_DEV_DEBUG=0 CARGO_PROFILE_TEST_DEBUG=0 CARGO_INCREMENTAL=0
 clean() { git checkout -q -- . ; git clean -qfd -e Cargo.lock -e target; }
 clean
 git apply "$M/demo.diff" || { echo "demo.diff does not apply" | tee -a "$LOG"; exit 2; }
